@@ -124,6 +124,11 @@ def evalChain (kv : List (String × String)) : Option String := do
     -- unparsable rfc822Name met on the way, are both refusals)
     if coded = .allow then pure s!"eng=deny vfy=nc why={why full}"
     else pure s!"eng={classS coded} vfy=nc"
+  | .parse =>
+    -- a name the verifier cannot parse / match: since 41cbd56 the engine uses the same parsers
+    -- and refuses (403, or 500 for an rfc822Name) — signing such a name is a violation too
+    if coded = .allow then pure s!"eng=deny vfy=parse why={why full}"
+    else pure s!"eng={classS coded} vfy=parse"
   | v => pure s!"eng={classS coded} vfy={goS v}"
 
 def stepS : Step → String
